@@ -1474,4 +1474,17 @@ theorem innerKet_conj (A B : Mat) (h : A.r = B.r) : innerKet B A = (innerKet A B
   intro k _
   rw [CQ.conj_mul, CQ.conj_conj, mul_comm]
 
+/-- `⟨a|(|b⟩⟨b|)|a⟩ = ⟨a|b⟩⟨b|a⟩`. -/
+theorem expectKet_pureDM (A B : Mat) (hB : B.c = 1) :
+    expectKet (pureDM B) A = innerKet A B * innerKet B A := by
+  unfold expectKet innerKet pureDM Mat.mul Mat.dagger
+  simp only [hB, sumTo_one]
+  rw [sumTo_mul_right]
+  apply sumTo_congr
+  intro i _
+  have : (sumTo B.r fun k => B.f i 0 * (B.f k 0).conj * A.f k 0)
+      = B.f i 0 * sumTo B.r fun k => (B.f k 0).conj * A.f k 0 := by
+    rw [sumTo_mul_left]; apply sumTo_congr; intro k _; ring
+  rw [this]; ring
+
 end Pulser.Measure
